@@ -1,0 +1,62 @@
+//go:build verif
+
+package log
+
+import "reflect"
+
+// This file is only compiled with the `verif` build tag. It exposes a few
+// unexported functions to the verification harness under /verif and adds no
+// behaviour to the library.
+
+// VerifIsValidTag exposes isValidTag.
+func VerifIsValidTag(s string) bool { return isValidTag(s) }
+
+// VerifClearExpired runs the retention scan synchronously.
+func (c *RollingFileAppender) VerifClearExpired() { c.clearExpiredFiles() }
+
+// VerifToCamelKey exposes toCamelKey.
+func VerifToCamelKey(s string) string { return toCamelKey(s) }
+
+// VerifToStorage exposes toStorage and returns the flattened key/value data.
+func VerifToStorage(m map[string]string) (map[string]string, error) {
+	s, err := toStorage(m)
+	if err != nil {
+		return nil, err
+	}
+	return s.Data(), nil
+}
+
+// VerifPlugins returns a copy of the plugin registry as type -> name -> struct type.
+func VerifPlugins() map[PluginType]map[string]reflect.Type {
+	r := map[PluginType]map[string]reflect.Type{}
+	for t, m := range pluginRegistry {
+		r[t] = map[string]reflect.Type{}
+		for n, p := range m {
+			r[t][n] = p.Class
+		}
+	}
+	return r
+}
+
+// VerifSortByLevel runs sortByLevel on level ranges given as (min,max) code
+// pairs and returns the adjusted pairs together with the original indices.
+func VerifSortByLevel(rs []LevelRange) (out []LevelRange, idx []int) {
+	refs := make([]*AppenderRef, len(rs))
+	pos := map[*AppenderRef]int{}
+	for i, r := range rs {
+		refs[i] = &AppenderRef{Level: r}
+		pos[refs[i]] = i
+	}
+	c := &AppenderRefs{AppenderRefs: refs}
+	c.sortByLevel()
+	for _, r := range c.AppenderRefs {
+		out = append(out, r.Level)
+		idx = append(idx, pos[r])
+	}
+	return
+}
+
+// VerifLifecycleState reports the once-guard and the number of recorded plugins.
+func VerifLifecycleState() (init bool, loggers, appenders int) {
+	return global.init, len(global.loggers), len(global.appenders)
+}
